@@ -1,5 +1,6 @@
 """C04 — fuzzy ranking quality (structural clauses: early-exit soundness, prefix-bonus additivity)."""
 from cfg import Inconclusive, op_place, show, walk, strip_casts
+from common import uses_of_local
 from common import (config_effects, calls_to, callee, field_chain, fn_of, get_fn, peel, site, guards_of, ret_aggregates,
                     field_reads, field_assigns)
 
@@ -572,6 +573,81 @@ def _expand_selectors(facts, fn, paths):
     return out
 
 
+def rule_prefix_decay(ctx):
+    """`prefer_prefix`: the bonus a first-needle-character match receives shrinks with its distance from the start of
+    the haystack, so the loop-carried prefix bonus has to shrink on EVERY column of the first row, whether the column
+    matches or not.  (Decayed only on matching columns, a late occurrence keeps the bonus of an early one and the matrix
+    score exceeds every real alignment's score.)  Path rule: no way from the loop header to the back edge without the
+    decay -- directly or through a `&mut` handed to a folded-in helper."""
+    facts = ctx.facts
+    fn = get_fn(facts, M, "fuzzy_optimal::<impl matrix::MatcherDataView<'_, H>>::score_row")
+    cands = [l for l in range(1, len(fn.b["locals"])) if fn.names.get(l) == "prefix_bonus" and fn.b["locals"][l]["ty"] == "u16"]
+    if not cands:
+        raise Inconclusive("score_row: no u16 local named prefix_bonus")
+    n = 0
+    for L in cands:
+        refs = set()
+        for bi in sorted(fn.live):
+            for s_ in fn.blocks[bi]["stmts"]:
+                if s_.get("k") == "assign" and "ref" in s_["rv"] and s_["rv"].get("mut") and s_["rv"]["ref"]["l"] == L and not s_["rv"]["ref"]["p"] and not s_["lhs"]["p"]:
+                    refs.add(s_["lhs"]["l"])
+        # locals that are copies of such a reference (parameter of a folded-in helper)
+        for _ in range(3):
+            for bi in sorted(fn.live):
+                for s_ in fn.blocks[bi]["stmts"]:
+                    if s_.get("k") == "assign" and isinstance(s_["rv"].get("use"), dict) and not s_["lhs"]["p"]:
+                        pl = s_["rv"]["use"].get("move") or s_["rv"]["use"].get("copy")
+                        if pl is not None and not pl["p"] and pl["l"] in refs:
+                            refs.add(s_["lhs"]["l"])
+                    if s_.get("k") == "assign" and "ref" in s_["rv"] and not s_["lhs"]["p"] and s_["rv"]["ref"]["l"] in refs and s_["rv"]["ref"]["p"] == ["deref"]:
+                        refs.add(s_["lhs"]["l"])        # reborrow `&mut *r`
+        decay = set()
+        reads = set()
+        for bi in sorted(fn.live):
+            for s_ in fn.blocks[bi]["stmts"]:
+                if s_.get("k") != "assign":
+                    continue
+                direct = s_["lhs"]["l"] == L and not s_["lhs"]["p"]
+                through = s_["lhs"]["l"] in refs and s_["lhs"]["p"] == ["deref"]
+                if direct or through:
+                    e = fn.expr_of_rvalue(s_["rv"])
+                    if any(x[0] == "call" and "saturating_sub" in str(x[1]) for x in walk(e)):
+                        decay.add(bi)
+            t = fn.blocks[bi]["term"]
+            if t["k"] == "call" and t["dest"]["l"] == L and "saturating_sub" in callee(t):
+                decay.add(bi)
+            if t["k"] == "call" and "saturating_sub" in callee(t) and t["dest"]["p"] == ["deref"] and t["dest"]["l"] in refs:
+                decay.add(bi)
+        for h, body, srcs in fn.loops():
+            uses_here = any((u[1] in body) for u in uses_of_local(fn, L)) or any(any(u[1] in body for u in uses_of_local(fn, r_)) for r_ in refs)
+            if not uses_here:
+                continue
+            n += 1
+            key = "%s|prefix-decay|%d" % (fn.path, n)
+            inside = [d for d in decay if d in body]
+            if not inside:
+                ctx.violation(key, site(fn, h), "the prefix bonus is read in this column loop but never decayed in it")
+                continue
+            # columns of later rows (FIRST_ROW == false) neither read nor decay the bonus
+            later_rows = []
+            for bi in body:
+                t_ = fn.blocks[bi]["term"]
+                if t_["k"] == "switch" and "FIRST_ROW" in show(fn.expr_of_operand(t_["discr"])):
+                    later_rows += [(bi, bb) for v, bb in t_["arms"] if v == 0]
+            r = fn.reach_from(h, removed_nodes=set(inside), removed_edges=set(later_rows))
+            stale = [s_ for s_ in srcs if s_ in r and s_ in body]
+            if not later_rows and stale:
+                # no FIRST_ROW test in this loop: the loop may serve later rows only through an earlier test
+                pass
+            if stale:
+                ctx.violation(key, site(fn, stale[0]),
+                              "a column of the first row can be passed without decaying the prefix bonus (the decay sits behind an early exit for non-matching columns): a late "
+                              "occurrence of needle[0] keeps the bonus of an earlier column, and the matrix score exceeds the score of every real alignment")
+            else:
+                ctx.ok(site(fn, h), "prefix bonus decays (saturating_sub) on every path through a column of the first row")
+    ctx.floor("first-row column loops that use the prefix bonus", n, 1)
+
+
 def rule_slab_choice(ctx):
     facts = ctx.facts
     fmo = get_fn(facts, M, "fuzzy_optimal::<impl Matcher>::fuzzy_match_optimal")
@@ -623,3 +699,4 @@ def rules(ctx):
     ctx.run_rule("C04.prefix-additive", rule_prefix_additive)
     ctx.run_rule("C04.cell-equations", rule_cell_equations)
     ctx.run_rule("C04.slab-choice", rule_slab_choice)
+    ctx.run_rule("C04.prefix-decay", rule_prefix_decay)
